@@ -255,7 +255,9 @@ where
     let mut result = operand.checked_add(D::from_num(1)).ok_or(())?;
     let mut term = operand;
 
-    for i in 2..D::frac_nbits() {
+    // sum until the terms vanish: the number of terms needed grows with the
+    // operand and stays below twice the bit width for every representable result
+    for i in 2..(2 * (D::int_nbits() + D::frac_nbits())) {
         #[cfg(substrate_fixed_verif)]
         crate::verif::tick();
         term = if let Some(r) = term.checked_mul(operand) {
@@ -265,11 +267,14 @@ where
         };
         //let bits = if let Some(r) = D::from_num(i)
         //    { r } else { return Err(()) };
-        term = if let Some(r) = term.checked_div(D::from_num(i)) {
+        term = if let Some(r) = D::checked_from_num(i).and_then(|i| term.checked_div(i)) {
             r
         } else {
             return Err(());
         };
+        if term == ZERO {
+            break;
+        }
 
         result = if let Some(r) = result.checked_add(term) {
             r
